@@ -484,9 +484,12 @@ def duo_interleavings(wd, be_objects, deleter_kw, lister_kw, subdir, victim_loc,
         cache = wd / f'duo-cache-{k}'
         shutil.rmtree(cache, ignore_errors=True)
         # the deleter's entries are cached; the fresh snapshot is not (it was added by the other client meanwhile)
-        assert repolab.Client(b, cache=cache, **deleter_kw).list_snapshots().ok
+        warm = listing(b, deleter_kw, cache, concurrent=4)
+        checks, box = [('the first listing with the shared cache', listing(b, deleter_kw, None), warm)], {}
+        if warm['cls'] != 'Ok':
+            results.append({'order': point, 'paused': False, 'checks': checks})
+            continue
         Path(cache, fresh_loc).unlink(missing_ok=True)
-        checks, box = [], {}
         gate = Gate(cache, subdir, point)
         with gate:
             if point == 'before_write':
@@ -615,7 +618,10 @@ def crowd_main(inp):
             subdir = crowded[0]
             victim, fresh = sorted(dirs[subdir])[:2]
     if subdir is not None:
-        out['duo'] = {'subdir': subdir, 'runs': duo_interleavings(wd, dict(b.objects), owner_kw, lister_kw, subdir, victim, fresh, canon)}
+        try:
+            out['duo'] = {'subdir': subdir, 'runs': duo_interleavings(wd, dict(b.objects), owner_kw, lister_kw, subdir, victim, fresh, canon)}
+        except Exception as e:  # noqa: BLE001 - reported by the parent, the crowded-directory results are kept
+            out['duo_error'] = f'{type(e).__name__}: {e}'[:300]
     sys.stdout.write(json.dumps(out))
     sys.stdout.flush()
     os._exit(0)
@@ -642,6 +648,8 @@ def run_crowds(ctx, rep, specs):
         rep.case(('crowd', kind, seed), nontrivial=bool(r['crowded']))
         rep.count('variant:cold-crowded')
         rep.count('crowd:snapshots', r['n'])
+        if r.get('duo_error'):
+            rep.disagreements.append({'what': 'the two-clients scenario could not be run on the implementation: ' + r['duo_error'], 'replay': replay})
         for run_ in (r.get('duo') or {}).get('runs', []):
             rep.case(('duo', kind, seed, run_['order']), nontrivial=run_['paused'])
             rep.count('variant:shared-concurrent/' + run_['order'])
